@@ -78,7 +78,11 @@ def one_stage(cell, tgt, ll, ms, M, seed):
     u = tgt.sample_tempered_u(drng, M, beta)
     x = tgt.T(u)
     logl, _ = ll(x)
-    a = drng.randint(0, cell["K"], size=M)
+    if cell.get("assign") == "position" and cell["K"] >= 2:
+        # what the resampling stage does: the label is a function of where the particle sits
+        a = (u[:, 0] > cell.get("split", 0.3)).astype(int)
+    else:
+        a = drng.randint(0, cell["K"], size=M)
     st = StateManager(d)
     st.update_current(dict(u=u, x=x, logl=logl, assignments=a, beta=beta, calls=0, iter=1, logz=0.0))
     per = [0] if cell["boundary"] == "periodic" else None
@@ -158,6 +162,7 @@ def run_case(cell):
 
         thr = float(sst.t.isf(sst.norm.sf(Z), cell["calls"] - 1))
     violations = []
+    assign = "position" if (cell.get("assign") == "position" and cell["K"] >= 2) else "independent"
     btype = cell["boundary"] if cell["boundary"] in ("periodic", "reflective") else "hard"
     fail_btype = btype  # coordinates other than the first are always hard
     if z0 > Z:
@@ -165,10 +170,10 @@ def run_case(cell):
     if abs(zmax[3]) > thr:
         violations.append(dict(property=PROP, oracle="invariance", detail=f"{cell['kernel']} on a {cell['boundary']} coordinate, factor {cell['factor']}, beta={beta}, d={d}, K={cell['K']}, nu={cell['nu']}, sigma={cell.get('sigma')}: "
                                f"after the mutate stage {zmax[0]}[coord {zmax[1]}, q={zmax[2]}] is off by z={zmax[3]:+.1f} (threshold {thr:.1f}); acceptance {acc:.2f}",
-                               keys=dict(kernel=cell["kernel"], boundary=btype, d_gt1=bool(d > 1))))
+                               keys=dict(kernel=cell["kernel"], boundary=btype, d_gt1=bool(d > 1), assignment=assign)))
     return dict(violations=violations, stats=dict(walkers=cell["M"], stages=1 if d == 1 else cell["calls"]), probes={}, digest=json.dumps([round(z[3], 6) for z in zs][:4]),
-                distinct_key=json.dumps({k: cell[k] for k in ("kernel", "boundary", "factor", "beta", "d", "K", "nu", "sigma", "mean_outside")}, sort_keys=True),
-                nontrivial=0.02 < acc < 0.98, zmax=abs(zmax[3]) / thr * Z, cellkey=f"{cell['kernel']}/{btype}",
+                distinct_key=json.dumps({k: cell.get(k) for k in ("kernel", "boundary", "factor", "beta", "d", "K", "nu", "sigma", "mean_outside", "assign")}, sort_keys=True),
+                nontrivial=0.02 < acc < 0.98, zmax=abs(zmax[3]) / thr * Z, cellkey=f"{cell['kernel']}/{btype}" + ("/assign-by-position" if assign == "position" else ""),
                 sample=dict(cell={k: cell[k] for k in ("kernel", "boundary", "factor", "beta", "d", "K", "nu", "sigma")}, acceptance=round(acc, 3), max_abs_z=round(abs(zmax[3]), 2), statistic=zmax[:3]))
 
 
@@ -187,6 +192,9 @@ def cases(seed, tier):
         cell = dict(kernel=kernel, boundary=boundary, factor=factor, beta=r.choice([0.1, 0.5, 1.0]), d=d, K=r.choice([1, 1, 2]), nu=r.choice([1.0, 5.0, 1e6]),
                     mean_outside=r.random() < 0.25, scale=r.choice([0.1, 0.3, 1.0]), sigma=r.choice([None, None, 0.2, 0.5, 0.9]), ms_seed=r.randrange(2**31), seed=sch.np_seed(f"c03s.{k}") % (2**31),
                     M=100000 if tier == "quick" else 200000, calls=40)
+        if k % 8 == 7 or (tier != "quick" and r.random() < 0.15):
+            # labels that depend on the particle's position (as produced by clusterer.predict in the resampling stage), two different modes
+            cell.update(K=2, assign="position", split=r.choice([0.2, 0.3, 0.5]), boundary="hard-abutting" if boundary.startswith("hard") else boundary, mean_outside=False)
         if kernel == "tpcn" and cell["sigma"] is not None:
             cell["sigma"] = min(cell["sigma"], 0.99)
         out.append(cell)
